@@ -658,7 +658,7 @@ pub fn format_number(value_original: f64, format: &str, locale: &Locale) -> Form
 fn parse_day(day_str: &str) -> Result<(u32, String), String> {
     let bytes = day_str.bytes();
     let bytes_len = bytes.len();
-    if bytes_len <= 2 {
+    if bytes_len <= 2 && day_str.bytes().all(|b| b.is_ascii_digit()) {
         match day_str.parse::<u32>() {
             Ok(y) => {
                 if bytes_len == 2 {
@@ -676,7 +676,7 @@ fn parse_day(day_str: &str) -> Result<(u32, String), String> {
 fn parse_month(month_str: &str, locale: &Locale) -> Result<(u32, String), String> {
     let bytes = month_str.bytes();
     let bytes_len = bytes.len();
-    if bytes_len <= 2 {
+    if bytes_len <= 2 && month_str.bytes().all(|b| b.is_ascii_digit()) {
         match month_str.parse::<u32>() {
             Ok(y) => {
                 if bytes_len == 2 {
@@ -709,12 +709,15 @@ fn parse_year(year_str: &str) -> Result<(i32, String), String> {
     // 29 => 2029
     let bytes = year_str.bytes();
     let bytes_len = bytes.len();
-    if bytes_len != 2 && bytes_len != 4 {
+    if (bytes_len != 2 && bytes_len != 4) || !year_str.bytes().all(|b| b.is_ascii_digit()) {
         return Err("Not a valid year".to_string());
     }
     match year_str.parse::<i32>() {
         Ok(y) => {
-            if y < 30 {
+            if bytes_len == 4 {
+                // a four-digit year is taken as written (no two-digit pivot)
+                Ok((y, "yyyy".to_string()))
+            } else if y < 30 {
                 Ok((2000 + y, "yy".to_string()))
             } else if y < 100 {
                 Ok((1900 + y, "yy".to_string()))
@@ -790,6 +793,10 @@ pub(crate) fn parse_date(value: &str, locale: &Locale) -> Result<(i32, String), 
         Ok(n) => n,
         Err(_) => return Err("Not a valid date".to_string()),
     };
+    // dates before 1899-12-31 (or after 9999-12-31) have no serial number
+    if from_excel_date(serial_number as i64).is_err() {
+        return Err("Not a valid date".to_string());
+    }
     if is_iso_date {
         Ok((
             serial_number,
